@@ -214,9 +214,17 @@ def r6(ctx):
     c09.loops_can_exit(ctx, P, "C07.R6", [OPLOG_OPEN, BF_OPEN, MT_OPEN, FB_FROM_DATA, VALIDATE_LEADER, NEW], floor=4)
 
 
-RULES = [r1, r2, r3, r4, r5, r6]
+def r7(ctx):
+    """a torn entry write leaves a tail behind the accepted entries; open cuts it off, and it must
+    cut exactly there — at 8192 + the BYTE length of the accepted entries — or the recovery itself
+    destroys acknowledged entries that are only in the log (same clause as C02.R12)"""
+    from . import c02
+    c02.cut_behind_accepted(ctx, P, "C07.R7")
+
+
+RULES = [r1, r2, r3, r4, r5, r6, r7]
 EXPLANATION = ("C07 (a torn final write is tolerated): decides that validate_leader reports a leader shorter than 8 bytes, a zero length and an incomplete payload as end-of-log before decoding or slicing "
                "(R1), that a frame is accepted only on the equal-checksum edge (R2), that a checksum failure of a header slot or of a log entry is not propagated as an error out of Oplog::open (R3, conditional "
-               "on validate_leader having an error return), and that the four combinations of slot validity each lead to the intended header choice / fresh log / EmptyStorage (R4), and that the header bits remembered for each combination agree with the slot whose header is used (R5), and that every panic-capable construct and every loop on the open path (closure of Hypercore::new) is discharged / can exit (R6).")
+               "on validate_leader having an error return), and that the four combinations of slot validity each lead to the intended header choice / fresh log / EmptyStorage (R4), and that the header bits remembered for each combination agree with the slot whose header is used (R5), and that every panic-capable construct and every loop on the open path (closure of Hypercore::new) is discharged / can exit (R6). R7 (= C02.R12): the cut Oplog::open applies behind the accepted entries lies at 8192 + their byte length.")
 NOT_DECIDED = "which state a torn write recovers to (C02's undecided part); sector semantics of the disk; torn writes to the tree / bitfield / data stores."
 ASSUMPTIONS = ["a torn write leaves a byte prefix of the new data over the old data"]
